@@ -173,6 +173,29 @@ func (in *Interp) unop(fr *frame, x *ssa.UnOp) Value {
 			}
 			return in.zero(x.Type())
 		}
+		if ch, ok := v.(*Chan); ok && ch != nil && ch.ctx == nil && ch.cp > 0 {
+			// buffered channel: take the oldest element (or the zero value once closed and drained)
+			c := ch
+			in.maybePreempt("chan")
+			in.block("chan recv", func() bool { return len(c.queue) > 0 || c.closed })
+			var val Value
+			okv := false
+			if len(c.queue) > 0 {
+				val, okv = c.queue[0], true
+				c.queue = c.queue[1:]
+				in.emit("chan.recv", fmt.Sprintf("chan#%d", c.id))
+			}
+			if x.CommaOk {
+				if !okv {
+					val = in.zero(x.Type().(*types.Tuple).At(0).Type())
+				}
+				return Tuple{val, okv}
+			}
+			if !okv {
+				val = in.zero(x.Type())
+			}
+			return val
+		}
 		if ch, ok := v.(*Chan); ok && ch != nil && ch.ctx == nil {
 			c := ch
 			in.block("chan recv", func() bool { return c.closed })
@@ -1396,7 +1419,7 @@ func (in *Interp) chanReady(fr *frame, ch *Chan) bool {
 	if ch == nil {
 		return false
 	}
-	if ch.closed {
+	if ch.closed || len(ch.queue) > 0 {
 		return true
 	}
 	if ch.timer != nil {
@@ -1421,20 +1444,40 @@ func (in *Interp) selectOp(fr *frame, x *ssa.Select) Value {
 	mk := func() Tuple {
 		res := Tuple{Int(uint64(0)), false}
 		for _, st := range x.States {
-			res = append(res, in.zero(st.Chan.Type().Underlying().(*types.Chan).Elem()))
+			if st.Dir == types.RecvOnly {
+				res = append(res, in.zero(st.Chan.Type().Underlying().(*types.Chan).Elem()))
+			}
 		}
 		return res
 	}
 	var chans []*Chan
-	for _, st := range x.States {
-		if st.Dir != types.RecvOnly {
-			in.unsupported("select send")
-		}
+	isSend := make([]bool, len(x.States))
+	for i, st := range x.States {
 		ch, _ := fr.get(st.Chan).(*Chan)
+		if st.Dir != types.RecvOnly {
+			if ch != nil && (ch.cp == 0 || ch.ctx != nil || ch.timer != nil) {
+				in.unsupported("select with a send on an unbuffered channel")
+			}
+			isSend[i] = true
+		}
 		chans = append(chans, ch)
 	}
+	sendReady := func(ch *Chan) bool { return ch != nil && (ch.closed || len(ch.queue) < ch.cp) }
 	try := func() (Tuple, bool) {
 		for i, ch := range chans {
+			if isSend[i] {
+				if sendReady(ch) {
+					if ch.closed {
+						fr.tpanic("explicit", CStr("send on closed channel"))
+					}
+					ch.queue = append(ch.queue, copyVal(fr.get(x.States[i].Send)))
+					in.emit("chan.send", fmt.Sprintf("chan#%d", ch.id))
+					res := mk()
+					res[0] = Int(uint64(i))
+					return res, true
+				}
+				continue
+			}
 			if ch != nil && ch.ctx != nil {
 				in.emit("poll", ch.ctx.String(), fmt.Sprint(in.ctxCancelled(fr, ch.ctx)))
 			}
@@ -1444,6 +1487,20 @@ func (in *Interp) selectOp(fr *frame, x *ssa.Select) Value {
 				}
 				res := mk()
 				res[0] = Int(uint64(i))
+				if len(ch.queue) > 0 {
+					// received values follow (index, recvOk) in state order, receive states only
+					k := 2
+					for j := 0; j < i; j++ {
+						if !isSend[j] {
+							k++
+						}
+					}
+					if k < len(res) {
+						res[k] = ch.queue[0]
+					}
+					res[1] = true
+					ch.queue = ch.queue[1:]
+				}
 				return res, true
 			}
 		}
@@ -1471,7 +1528,13 @@ func (in *Interp) selectOp(fr *frame, x *ssa.Select) Value {
 	}
 	self := in.curTid()
 	in.block("select", func() bool {
-		for _, ch := range chans {
+		for i, ch := range chans {
+			if isSend[i] {
+				if sendReady(ch) {
+					return true
+				}
+				continue
+			}
 			if in.chanReady(fr, ch) {
 				return true
 			}
@@ -1532,7 +1595,10 @@ func (in *Interp) lenOf(fr *frame, v Value) Value {
 		}
 		return Int(len((*x).(Array)))
 	case *Chan:
-		return Int(0)
+		if x == nil {
+			return Int(0)
+		}
+		return Int(len(x.queue))
 	}
 	panic(fmt.Sprintf("len of %T", v))
 }
@@ -1681,7 +1747,7 @@ func (in *Interp) appendOp(fr *frame, a, b Value) Value {
 	need := s.n + len(elems)
 	if s.arr != nil && need <= s.cp {
 		for i, e := range elems {
-			(*s.arr)[s.off+s.n+i] = e
+			in.store(&(*s.arr)[s.off+s.n+i], e) // a write to the element cell (tracked cells record it)
 		}
 		return Slice{arr: s.arr, off: s.off, n: need, cp: s.cp}
 	}
